@@ -93,12 +93,12 @@ theorem C09_no_orphan (cfg : Cfg) (hp : cfg.recheckPub = true) (hs : cfg.recheck
   intro o hmem hopen
   rcases hown o hmem hopen with h | h
   · rw [hcl] at h; cases h
-  · obtain ⟨hs0, hpc⟩ := hall o.owner
-    have h0 : (st.sess o.owner).closePc = 0 := by
-      rcases hpc with h0 | h3
-      · exact h0
-      · exact absurd h3 h.1
-    exact ⟨h0, h.2.1, hperm o hmem hopen h hs0 rfl, h.2.2⟩
+  · obtain ⟨hs0, hnl, hnr⟩ := hall o.owner
+    have h0 : (st.sess o.owner).closed = false := by
+      cases hc : (st.sess o.owner).closed with
+      | false => rfl
+      | true => have := h.1 hc; omega
+    exact ⟨h0, h.2.1, hperm o hmem hopen h.mapped hs0 rfl, h.2.2⟩
 
 /-- The scope in which the current code's revocation is complete. -/
 def codeScope : Kind → Bool :=
@@ -112,7 +112,7 @@ return early (`sweepReturnsEarly = false`, C08's finding; see
 `C09_early_sweep_orphan`). -/
 theorem C09_no_orphan_code (st : State) (hr : Reachable codeCfg st) (hq : Quiescent st) :
     ∀ o ∈ st.objs, o.isOpen = true →
-      (st.sess o.owner).closePc = 0 ∧ o.stamp = (st.sess o.owner).epoch ∧
+      (st.sess o.owner).closed = false ∧ o.stamp = (st.sess o.owner).epoch ∧
       (st.sess o.owner).objs o.kind = some o.id ∧
       (codeScope o.kind = true → permitted (st.sess o.owner).perms o.kind o.media = true) := by
   have hsc : codeCfg.sweepEarly = false ∨ codeScope (.pub .screen) = false := by
@@ -123,12 +123,12 @@ theorem C09_no_orphan_code (st : State) (hr : Reachable codeCfg st) (hq : Quiesc
   intro o hmem hopen
   rcases hown o hmem hopen with h | h
   · rw [hcl] at h; cases h
-  · obtain ⟨hs0, hpc⟩ := hall o.owner
-    have h0 : (st.sess o.owner).closePc = 0 := by
-      rcases hpc with h0 | h3
-      · exact h0
-      · exact absurd h3 h.1
-    exact ⟨h0, h.2.1, h.2.2, hperm o hmem hopen h hs0⟩
+  · obtain ⟨hs0, hnl, hnr⟩ := hall o.owner
+    have h0 : (st.sess o.owner).closed = false := by
+      cases hc : (st.sess o.owner).closed with
+      | false => rfl
+      | true => have := h.1 hc; omega
+    exact ⟨h0, h.2.1, h.2.2, hperm o hmem hopen h.mapped hs0⟩
 
 /-- Once the sweep is complete in the source, the full statement holds for the code. -/
 theorem C09_no_orphan_code_full (hsw : sweepReturnsEarly = false)
@@ -141,7 +141,7 @@ call since the request started) is handed to a closing goroutine and never enter
 the owner's maps. -/
 theorem C09_late_creation_closed (cfg : Cfg) (hp : cfg.recheckPub = true) (hs : cfg.recheckSub = true)
     (st : State) (p : Pending) (hfind : findPend st.pend p.id = some p)
-    (hgone : (st.sess p.owner).closePc ≠ 0 ∨ (st.sess p.owner).epoch ≠ p.stamp) :
+    (hgone : (st.sess p.owner).closed = true ∨ (st.sess p.owner).epoch ≠ p.stamp) :
     let st' := step cfg st (.createEnd p.id .ok)
     p.id ∈ st'.closing ∧ st'.sess = st.sess := by
   have hre : recheckOk cfg st p = false := by
@@ -240,18 +240,15 @@ theorem C09_epoch_monotone (cfg : Cfg) (st : State) (a : Action) (i : Nat) :
   | inCallSet s b => simp only [step]; exact Nat.le_of_eq (hupd st s _ rfl).symm
   | leaveCall s => simp only [step]; split; exact Nat.le_refl _; exact hrel st s
   | leaveRoom s => exact hleave st s
-  | closeCancel s =>
-    simp only [step]; split
-    · exact Nat.le_of_eq (hupd st s _ rfl).symm
-    · exact Nat.le_refl _
+  | closeCancel s => simp only [step]; exact Nat.le_of_eq (hupd st s _ rfl).symm
   | closeLeave s =>
     simp only [step]; split
-    · rw [hupd _ s _ rfl]; exact hleave st s
     · exact Nat.le_refl _
+    · rw [hupd _ s _ rfl]; exact hleave st s
   | closeRelease s =>
     simp only [step]; split
-    · rw [hupd _ s _ rfl]; exact hrel st s
     · exact Nat.le_refl _
+    · rw [hupd _ s _ rfl]; exact hrel st s
   | setPerms s p => simp only [step]; exact Nat.le_of_eq (hupd st s _ rfl).symm
   | sweep s =>
     simp only [step]; split
@@ -279,6 +276,26 @@ theorem C09_epoch_monotone (cfg : Cfg) (st : State) (a : Action) (i : Nat) :
       | timeout => exact Nat.le_refl _
   | doClose k => exact Nat.le_refl _
 
+theorem run_epoch_monotone (cfg : Cfg) (acts : List Action) (st : State) (i : Nat) :
+    (st.sess i).epoch ≤ ((run cfg st acts).sess i).epoch := by
+  induction acts generalizing st with
+  | nil => exact Nat.le_refl _
+  | cons a as ih => exact Nat.le_trans (C09_epoch_monotone cfg st a i) (ih (step cfg st a))
+
+/-- Hence "stamp = generation" means what `Entitled` is meant to say: if the owner's
+generation at the end of a run equals the one read when the request started, it
+had that value at every point in between — no leave / close of the owner happened
+since (each of them raises it, `C09_release_bumps`, `C09_close_bumps`). -/
+theorem C09_no_release_between (cfg : Cfg) (st : State) (acts₁ acts₂ : List Action) (i : Nat)
+    (h : ((run cfg st (acts₁ ++ acts₂)).sess i).epoch = (st.sess i).epoch) :
+    ((run cfg st acts₁).sess i).epoch = (st.sess i).epoch := by
+  have h1 := run_epoch_monotone cfg acts₁ st i
+  have h2 := run_epoch_monotone cfg acts₂ (run cfg st acts₁) i
+  have e : run cfg st (acts₁ ++ acts₂) = run cfg (run cfg st acts₁) acts₂ := by
+    simp [run, List.foldl_append]
+  rw [e] at h
+  omega
+
 /-- … and leaving a room, leaving a call and the release of `Close()` raise it:
 an object whose stamp equals the owner's generation was requested after the
 owner's last leave / close. -/
@@ -291,12 +308,18 @@ theorem C09_release_bumps (cfg : Cfg) (st : State) (s r : Nat) (hroom : (st.sess
   · simp only [step, hroom]
     rw [release_sess_same]
 
-theorem C09_close_bumps (cfg : Cfg) (st : State) (s : Nat) (hpc : (st.sess s).closePc = 2) :
+theorem C09_close_bumps (cfg : Cfg) (st : State) (s : Nat) (hpc : (st.sess s).needRelease ≠ 0) :
     ((step cfg st (.closeRelease s)).sess s).epoch = (st.sess s).epoch + 1 ∧
-    ((step cfg st (.closeRelease s)).sess s).closePc = 3 := by
-  simp only [step, hpc, if_true, upd_sess_same]
+    ((step cfg st (.closeRelease s)).sess s).needRelease = (st.sess s).needRelease - 1 ∧
+    ((step cfg st (.closeRelease s)).sess s).objs = fun _ => none := by
+  simp only [step, hpc, if_false, upd_sess_same]
   rw [release_sess_same]
   simp
+
+/-- Every `Close()` cancels the context first; from then on nothing is stored for the session. -/
+theorem C09_closeCancel_closes (cfg : Cfg) (st : State) (s : Nat) :
+    ((step cfg st (.closeCancel s)).sess s).closed = true := by
+  simp [step]
 
 /-- A request reads the owner's current generation. -/
 theorem C09_stamp_at_begin (cfg : Cfg) (st : State) (s : Nat) (t : Stream) (m : Media)
